@@ -2,8 +2,8 @@ CONSTANTS
   Vals = {1, 2, 3, 4}
   Share <- ShareFn
   MaxRetries = 2
-  Worlds = {0, 1, 2}
-  EKinds = {"slc", "valset", "usc", "uusc"}
+  Worlds = {0, 1, 2, 3}
+  EKinds = {"slc", "valset", "usc", "uscn", "uusc"}
   KMax = 3
   Signers = {1, 2, 3, 4}
   SignOrdered = FALSE
